@@ -100,7 +100,7 @@ package geojson
 //@ func parseJSONPoint
 //@   props C05 C07 C08
 //@   arith order
-//@   dead cover.ret1
+//@   dead ret "return nil, err$"#2
 //@   entry use rootGlobalsInit()
 //@   requires keys != nil && opts != nil
 //@   requires KeysOK: len(keys.members) == 0 || len(keys.members) >= 2
@@ -132,7 +132,7 @@ package geojson
 //@ func parseJSONLineString
 //@   props C05 C07 C08
 //@   arith order
-//@   dead cover.ret2
+//@   dead ret "return nil, err$"#2
 //@   entry use rootGlobalsInit()
 //@   requires keys != nil && opts != nil
 //@   ensures Shape: okShape(result0, result1)
@@ -155,7 +155,7 @@ package geojson
 //@ func parseJSONPolygon
 //@   props C05 C07 C08 C12
 //@   arith order
-//@   dead cover.ret3
+//@   dead ret "return nil, err$"#2
 //@   entry use rootGlobalsInit()
 //@   requires keys != nil && opts != nil
 //@   ensures Shape: okShape(result0, result1)
@@ -200,7 +200,7 @@ package geojson
 //@   props C05 C07 C08
 //@   arith order
 //@   decreases len(keys.rGeometry.Raw) + 1 ; 0
-//@   dead cover.ret2
+//@   dead ret "return nil, err$"#2
 //@   entry use rootGlobalsInit()
 //@   requires keys != nil && opts != nil
 //@   ensures Shape: okShape(result0, result1)
@@ -213,7 +213,7 @@ package geojson
 //@ func parseJSONMultiPoint
 //@   props C05 C07 C08
 //@   arith order
-//@   dead cover.ret3
+//@   dead ret "return nil, err$"#2
 //@   entry use rootGlobalsInit()
 //@   requires keys != nil && opts != nil
 //@   ensures Shape: okShape(result0, result1)
@@ -234,7 +234,7 @@ package geojson
 //@   props C05 C07 C08
 //@   arith order
 //@   only post. iter. inv. assert. safe.   // collection invariants of the children (CollKidsInv = ObjInv) are domain-restricted: preconditions of parseInitRectIndex are not discharged
-//@   dead cover.ret3
+//@   dead ret "return nil, err$"#2
 //@   entry use rootGlobalsInit()
 //@   requires keys != nil && opts != nil
 //@   ensures Shape: okShape(result0, result1)
@@ -253,7 +253,7 @@ package geojson
 //@   props C05 C07 C08
 //@   arith order
 //@   only post. iter. inv. assert. safe.   // collection invariants of the children (CollKidsInv = ObjInv) are domain-restricted: preconditions of parseInitRectIndex are not discharged
-//@   dead cover.ret3
+//@   dead ret "return nil, err$"#2
 //@   entry use rootGlobalsInit()
 //@   requires keys != nil && opts != nil
 //@   ensures Shape: okShape(result0, result1)
@@ -281,7 +281,7 @@ package geojson
 //@   arith order
 //@   only post. dec. safe.   // collection invariants of the children (CollKidsInv = ObjInv) are domain-restricted: not established for arbitrary documents
 //@   decreases len(keys.rGeometries.Raw) + 1 ; 0
-//@   dead cover.ret3
+//@   dead ret "return nil, err$"#2
 //@   call 0 use forall r gjson.Result :: AGjsonSub(r, $idx)
 //@   entry use rootGlobalsInit()
 //@   requires keys != nil && opts != nil
@@ -297,7 +297,7 @@ package geojson
 //@   arith order
 //@   only post. dec. safe.   // collection invariants of the children (CollKidsInv = ObjInv) are domain-restricted: not established for arbitrary documents
 //@   decreases len(keys.rFeatures.Raw) + 1 ; 0
-//@   dead cover.ret3
+//@   dead ret "return nil, err$"#2
 //@   call 0 use forall r gjson.Result :: AGjsonSub(r, $idx)
 //@   entry use rootGlobalsInit()
 //@   requires keys != nil && opts != nil
